@@ -36,7 +36,9 @@ Lemma schedule_quiet_or_fserr c : forall nd, tree_quiet c nd = true -> forall ms
   forallb (quiet_or_fserr c) (schedule c ms p nd) = true.
 Proof.
   induction nd as [n k sz d ff|n ch df IH] using node_ind2; intros Q ms p.
-  - cbn [schedule forallb quiet_or_fserr is_fserr call_quiet orb]. cbn [tree_quiet] in Q. rewrite Q. reflexivity.
+  - cbn [schedule forallb quiet_or_fserr is_fserr call_quiet orb]. cbn [tree_quiet] in Q.
+    destruct (ff_stat ff); [|rewrite andb_false_r; reflexivity]. cbn [andb] in Q. apply negb_true_iff, orb_false_iff in Q as [Q _].
+    rewrite Q. reflexivity.
   - rewrite schedule_dir. cbn [forallb]. rewrite tree_quiet_dir in Q. apply andb_true_iff in Q as [QG QC].
     pose proof (dir_decision_quiet c ms p ch QG) as DD.
     unfold quiet_or_fserr at 1. cbn [is_fserr call_quiet orb].
@@ -144,7 +146,7 @@ Definition outcome_event (e p : list N) (ff : ffault) : event :=
   if ff_open ff then EOpenErr e p else if ff_fstat ff then EFstatErr e p else EExtract e p.
 
 Lemma ext_events_required c p size ff : forall es checked e,
-  checked || size_ok c size = true -> In e es -> c_required c e p = true ->
+  checked || size_ok c size = true -> In e es -> req c e p size ff = true ->
   In (outcome_event e p ff) (ext_events c p size ff es checked).
 Proof.
   rewrite size_ok_alt.
@@ -158,7 +160,7 @@ Proof.
   destruct Hin as [->|Hin].
   - rewrite R, NS. apply in_or_app. left. unfold outcome_event.
     destruct (ff_open ff); [left; reflexivity|]. destruct (ff_fstat ff); left; reflexivity.
-  - destruct (c_required c e0 p).
+  - destruct (req c e0 p size ff).
     + rewrite NS. apply in_or_app. right. apply IH; [apply OK'|exact Hin|exact R].
     + apply IH; assumption.
 Qed.
@@ -187,7 +189,7 @@ Qed.
 
 (* ------------------------------------------------------------------ Scan's overall status *)
 Lemma scan_status_lemma c roots r :
-  roots <> [] -> (c_paths c = [] \/ (length roots <= 1)%nat) -> scan c roots = ScanDone r ->
+  roots <> [] -> (c_paths c = [] \/ (length roots <= 1)%nat) -> scan c [] roots = ScanDone r ->
   (sr_failed r = false <-> exists inv sts st, run c roots = ROk inv sts st).
 Proof.
   intros NE PR. unfold scan. destruct roots as [|t0 roots]; [contradiction|].
